@@ -18,7 +18,7 @@ import (
 
 // C19 — a failed storage read is reported and never wedges the segment.
 const c19Rule = "case = file-backed segment (small / block families, built or merged; >1024-document family with one retained doc-value reader crossing chunk boundaries) + a sequence of 3..10 read calls (dictionary enumeration, postings walk, stored visit, doc-value visit with one retained reader, " +
-	"DocsMatchingTerms, stats, persist, merge as input); inside each case EVERY index k of the storage read from which all reads fail is enumerated, k = 0..(reads of the fault-free run; beyond 300 reads: first 120, last 20 and a stride), each on a freshly loaded segment " +
+	"DocsMatchingTerms, stats, persist, merge as input); inside each case EVERY index k of the storage read from which all reads fail is enumerated, k = 0..(reads of the fault-free run; beyond 300 reads: first 120, last 20, 40 after the start of every call, and a stride), both as a persistent failure and as a transient window of 1..3 failing reads, each on a freshly loaded segment " +
 	"(walks through every 'which caches are warm' state); oracle = every call returns (watchdog + goroutine dump: blocked in Mutex.Lock under an ice frame = violation, anything else = inconclusive), a call that saw a failing " +
 	"read yields an error, an empty result or the fault-free result (never a different non-empty result), a call before the first failure is correct, a later call that does no storage read of its own is correct or reports an error / empty result (never a different non-empty result), no panic - also when the caller keeps calling Next on an iterator that returned an error; non-trivial = the fault hits after >=1 successful read and >=1 call follows " +
 	"the first failing call; distinct = hash of case text + call sequence"
@@ -59,6 +59,14 @@ func (o rop) String() string {
 		return "persist"
 	}
 }
+
+// oneDocStats is a caller-side CollectionStats value (1,1,1).
+type oneDocStats struct{}
+
+func (*oneDocStats) TotalDocumentCount() uint64    { return 1 }
+func (*oneDocStats) DocumentCount() uint64         { return 1 }
+func (*oneDocStats) SumTotalTermFrequency() uint64 { return 1 }
+func (*oneDocStats) Merge(segment.CollectionStats) {}
 
 type ropEnv struct {
 	seg   segment.Segment
@@ -192,7 +200,19 @@ func (o rop) run(env *ropEnv) (res string, err error) {
 			if err != nil {
 				return err
 			}
-			fmt.Fprintf(&sb, "%+v", statsOf(cs))
+			// callers aggregate by merging other statistics INTO the object they got
+			other, err := env.seg.CollectionStats("_id")
+			if err != nil {
+				return err
+			}
+			before := statsOf(cs)
+			cs.Merge(other)
+			cs.Merge(&oneDocStats{})
+			fresh, err := env.seg.CollectionStats(o.field)
+			if err != nil {
+				return err
+			}
+			fmt.Fprintf(&sb, "%+v then %+v", before, statsOf(fresh))
 		case 6:
 			var buf bytes.Buffer
 			_, err := ice.Merge([]segment.Segment{env.seg}, []*roaring.Bitmap{nil}, 0).WriteTo(&buf, nil)
@@ -410,7 +430,9 @@ func c19Prop(st *CaseStats, fam int) func(t *rapid.T) {
 		env, fr := fresh()
 		fr.arm(-1)
 		good := make([]string, len(ops))
+		opStart := make([]int, len(ops))
 		for i, o := range ops {
+			opStart[i] = int(fr.calls.Load())
 			res, err, blocked, infra := runGuarded(o, env)
 			if infra != "" {
 				t.Fatalf("INFRA: %s", infra)
@@ -433,16 +455,41 @@ func c19Prop(st *CaseStats, fam int) func(t *rapid.T) {
 			// long read sequences (block family): the first 120 and last 20
 			// fault points exhaustively, a stride in between
 			stride := total / 150
+			nearOpStart := map[int]bool{}
+			for _, s0 := range opStart {
+				for j := 0; j <= 40; j++ {
+					nearOpStart[s0+j] = true
+				}
+			}
 			for k := 0; k <= total; k++ {
-				if k <= 120 || k >= total-20 || k%stride == 0 {
+				if k <= 120 || k >= total-20 || k%stride == 0 || nearOpStart[k] {
 					ks = append(ks, k)
 				}
 			}
 			st.Label("fault-points-sampled-cases", 1)
 		}
+		type faultMode struct {
+			k, window int
+		}
+		var modes []faultMode
 		for _, k := range ks {
+			modes = append(modes, faultMode{k, 0})
+		}
+		// transient faults: a window of 1..3 failing reads, then the storage works again
+		win := rapid.IntRange(1, 3).Draw(t, "transientWindow")
+		for i, k := range ks {
+			if len(ks) <= 150 || i%3 == 0 {
+				modes = append(modes, faultMode{k, win})
+			}
+		}
+		for _, fm := range modes {
+			k := fm.k
 			env, fr := fresh()
-			fr.arm(int64(k))
+			if fm.window > 0 {
+				fr.armWindow(int64(k), int64(fm.window))
+			} else {
+				fr.arm(int64(k))
+			}
 			firstFail := -1
 			for i, o := range ops {
 				before := fr.failures.Load()
@@ -490,7 +537,7 @@ func c19Prop(st *CaseStats, fam int) func(t *rapid.T) {
 			}
 		}
 		st.AddInner(inner)
-		st.Label("fault-points", len(ks))
+		st.Label("fault-points", len(modes))
 		st.Label("later-call-empty-instead-of-cached-result(allowed)", staleEmpty)
 		st.Record(desc, nt, c.LabelList()...)
 	}
